@@ -159,7 +159,7 @@ func cmdCheck(args []string) {
 				if i := strings.Index(file, ".go:"); i >= 0 {
 					file = file[:i+3]
 				}
-				rel := strings.TrimPrefix(file, "/repo/")
+				rel := strings.TrimPrefix(file, strings.TrimSuffix(repoLib, "lib"))
 				if files[rel] || strings.HasPrefix(rel, "lib/utils/") {
 					fs = append(fs, f)
 				}
